@@ -492,14 +492,16 @@ class ContinuousPagingSession(object):
 
     def on_page(self, result):
         with self._condition:
+            if self.released:
+                # the session already ended (last page or error)
+                return
             if self._state:
                 self._state.num_pages_received += 1
             self._page_queue.appendleft((result.column_names, result.parsed_rows, None))
             self._stop |= result.continuous_paging_last
+            if result.continuous_paging_last:
+                self.released = True
             self._condition.notify()
-
-        if result.continuous_paging_last:
-            self.released = True
 
     def on_error(self, error):
         if isinstance(error, ErrorMessage):
@@ -508,11 +510,13 @@ class ContinuousPagingSession(object):
         log.debug("Got error %s for session %s", error, self.stream_id)
 
         with self._condition:
+            if self.released:
+                # the session already ended (last page or error)
+                return
             self._page_queue.appendleft((None, None, error))
             self._stop = True
+            self.released = True
             self._condition.notify()
-
-        self.released = True
 
     def results(self):
         try:
